@@ -393,10 +393,14 @@ func (pe *pathEnum) applyAssign(q *Path, s ast.Stmt, assigned []types.Object) {
 				if o == nil {
 					continue
 				}
-				if rid, ok := ast.Unparen(as.Rhs[i]).(*ast.Ident); ok {
-					if _, isVar := pe.info.ObjectOf(rid).(*types.Var); isVar {
-						if t, ok := pe.xlat(old, oldDefs).term(rid); ok {
+				if !hasImpureCall(pe, as.Rhs[i]) {
+					if _, isLit := ast.Unparen(as.Rhs[i]).(*ast.FuncLit); !isLit {
+						if t, ok := pe.xlat(old, oldDefs).term(as.Rhs[i]); ok && !strings.HasPrefix(t, "const:") {
 							nd[o] = t
+						} else if ok {
+							if _, isBool := boolConst(pe.info, as.Rhs[i]); !isBool {
+								nd[o] = t
+							}
 						}
 					}
 				}
@@ -406,7 +410,7 @@ func (pe *pathEnum) applyAssign(q *Path, s ast.Stmt, assigned []types.Object) {
 		if len(as.Rhs) == 1 {
 			if call, ok := ast.Unparen(as.Rhs[0]).(*ast.CallExpr); ok {
 				if name, ok := pe.callOrd[call]; ok {
-					if t, pureTerm := pe.xlat(old, oldDefs).term(call); pureTerm && !strings.HasPrefix(t, "call:") {
+					if t, pureTerm := pe.xlat(old, oldDefs).term(call); pureTerm && t != name {
 						name = t // pure getter chains keep their canonical term
 					}
 					for i, l := range as.Lhs {
@@ -449,6 +453,37 @@ func (pe *pathEnum) applyAssign(q *Path, s ast.Stmt, assigned []types.Object) {
 	for _, f := range synth {
 		q.Conds = append(q.Conds, CondStep{Label: "assign", At: len(q.Events), F: f, Ver: nv})
 	}
+}
+
+// hasImpureCall: e contains a call that is not a conversion, builtin len or a pure getter.
+func hasImpureCall(pe *pathEnum, e ast.Expr) bool {
+	impure := false
+	ast.Inspect(e, func(n ast.Node) bool {
+		call, ok := n.(*ast.CallExpr)
+		if !ok {
+			return true
+		}
+		if tv, ok := pe.info.Types[call.Fun]; ok && tv.IsType() {
+			return true
+		}
+		if id, ok := ast.Unparen(call.Fun).(*ast.Ident); ok {
+			if _, isB := pe.info.Uses[id].(*types.Builtin); isB && (id.Name == "len" || id.Name == "cap") {
+				return true
+			}
+		}
+		if pe.pure != nil && pe.pure(call) {
+			return true
+		}
+		impure = true
+		return false
+	})
+	return impure
+}
+
+// TermAtEnd renders expression e with the path's final knowledge of local definitions.
+func (p Path) TermAtEnd(pe *pathEnum, e ast.Expr) string {
+	t, _ := pe.xlat(p.ver, p.defs).term(e)
+	return t
 }
 
 // definedBefore is a conservative helper: a := definition inside a loop body
